@@ -82,6 +82,13 @@ def _helper_schedules(ctx, m: FuncInfo, call: ast.Call, root: str, must: bool, d
     return any(may_event(e.state, "EV:imp") for e in exits)
 
 
+def _names_of(txt: str) -> set[str]:
+    try:
+        return {x.id for x in ast.walk(ast.parse(txt, mode="eval")) if isinstance(x, ast.Name)}
+    except SyntaxError:
+        return set()
+
+
 def _pairing_ok(ctx, tm, owner, m: FuncInfo, emit_node: ast.AST, root: str, conds: frozenset, depth: int = 3, strict: bool = True) -> tuple[bool, str]:
     """An import providing `root` accompanies the emission.
 
@@ -100,7 +107,11 @@ def _pairing_ok(ctx, tm, owner, m: FuncInfo, emit_node: ast.AST, root: str, cond
             evs.append("EV:imp")  # a helper of the family that schedules the import (on all of its exits when strict)
         return evs or None
 
-    fa = FlowAnalysis(m.node, ev, entry=conds)
+    # conditions of the template alternative that mention only names bound once in the method survive those bindings
+    r_ = ctx.resolver(m)
+    once = set(r_.single_assignments()) - set(m.params())
+    keep = {(p_, t_) for p_, t_ in conds if not t_.startswith(("EV:", "ITER:", "MATCH:")) and _names_of(t_) and (_names_of(t_) - {"self"}) <= (once | set(m.params()))}
+    fa = FlowAnalysis(m.node, ev, entry=conds, assume_only_once_bound=keep)
     if not fa.reachable(emit_node):
         return True, "unreachable under its own condition"
     if has_event(fa.state_at(emit_node), "EV:imp"):
